@@ -1,16 +1,19 @@
 #!/bin/bash
 # tools/seedcheck.sh <patch.diff> <tier> <Cxx> [<Cxx> ...]
-# Apply a seeded change to /repo, run the given checks, and undo the change straight afterwards.
+# Run checks against a seeded change. The change is applied to a scratch copy of /repo's working tree (PYTENET_PATH points
+# the checks at it), so /repo itself is never touched and background runs that read /repo are not disturbed. The scratch
+# copy is removed afterwards. (Equivalent to `git -C /repo apply`, run, `git -C /repo checkout -- .`.)
 set -u
 PATCH="$(readlink -f "$1")"; TIER="$2"; shift 2
 HERE="$(cd "$(dirname "$0")/.." && pwd)"
-if [ -n "$(git -C /repo status --porcelain --untracked-files=no)" ]; then echo "/repo not clean"; exit 3; fi
-git -C /repo apply "$PATCH" || { echo "patch does not apply"; exit 3; }
-trap 'git -C /repo checkout -- . ; rm -f "$HERE"/replays/*/fail-*.json' EXIT
+D=$(mktemp -d /tmp/ptseed.XXXXXX)
+trap 'rm -rf "$D"; rm -f "$HERE"/replays/*/fail-*.json' EXIT
+cp -r /repo/pytenet "$D/"
+( cd "$D" && git apply --unsafe-paths --directory="$D" "$PATCH" 2>/dev/null ) || ( cd "$D" && patch -s -p1 < "$PATCH" ) || { echo "patch does not apply"; exit 3; }
+if diff -rq /repo/pytenet "$D/pytenet" >/dev/null; then echo "patch had no effect"; exit 3; fi
 for P in "$@"; do
-  OUT=$(mktemp)
-  VERIF_EVIDENCE_DIR="$(mktemp -d)" "$HERE/run" "$P" "$TIER" > "$OUT" 2>&1
+  OUT="$D/out.$P"
+  VERIF_EVIDENCE_DIR="$D/ev" PYTENET_PATH="$D" "$HERE/run" "$P" "$TIER" > "$OUT" 2>&1
   echo "$P exit=$? : $(grep -c '^VIOLATION' "$OUT") VIOLATION line(s); $(grep -m1 -B1 '^VIOLATION' "$OUT" | head -1 | cut -c1-260)"
   grep -h HARNESS-ERROR "$OUT" | head -2
-  rm -f "$OUT"
 done
